@@ -360,3 +360,97 @@ func H_C17_history() {
 	}
 	vCover("reached")
 }
+
+// H_C17_container_sequence: one Filter used on containers of different types
+// that share an element type — the result type follows each input, not an
+// earlier one.
+func H_C17_container_sequence() {
+	f, err := CreateFilter("X == 1")
+	vAssume(err == nil)
+	mk := func() []eC17 { return []eC17{{ID: 1, X: vInt8()}, {ID: 2, X: vInt8()}} }
+	typeOf := func(kind int, r interface{}) bool {
+		switch kind {
+		case 0, 2:
+			_, ok := r.([]eC17)
+			return ok
+		default:
+			_, ok := r.(eC17s)
+			return ok
+		}
+	}
+	run := func(kind int) (interface{}, error) {
+		es := mk()
+		switch kind {
+		case 0:
+			return f.Execute(es)
+		case 1:
+			return f.Execute(eC17s(es))
+		default:
+			return f.Execute([2]eC17{es[0], es[1]})
+		}
+	}
+	k1, k2 := vChoose(3), vChoose(3)
+	vAssume(k1 != k2)
+	r1, e1 := run(k1)
+	r2, e2 := run(k2)
+	vAssert(e1 == nil && e2 == nil, "no error on comparable elements")
+	if e1 == nil && e2 == nil {
+		vAssert(typeOf(k1, r1), "first call: result type follows the input type")
+		vAssert(typeOf(k2, r2), "second call on another container type with the same element type: result type follows that input")
+	}
+	vCover("reached")
+}
+
+// H_C17_aliased_elements: distinct elements that share storage (sub-slices
+// of one backing array, the same pointer twice, a map stored twice) are
+// judged one by one.
+func H_C17_aliased_elements() {
+	rows := []eC17{{ID: 1, X: vInt8()}, {ID: 2, X: vInt8()}}
+	expr := []string{`"/1/X" == 1`, `"/0/X" == 1`}[vChoose(2)]
+	f, err := CreateFilter(expr)
+	vAssume(err == nil)
+	var in [][]eC17
+	if vBool() {
+		in = [][]eC17{rows[:2], rows[:1]}
+	} else {
+		in = [][]eC17{rows[:1], rows[:2]}
+	}
+	ev := mustCreate(expr)
+	var want [][]eC17
+	wantErr := false
+	for _, e := range in {
+		ok, eerr := ev.Evaluate(e)
+		if eerr != nil {
+			wantErr = true
+			break
+		}
+		if ok {
+			want = append(want, e)
+		}
+	}
+	res, rerr := f.Execute(in)
+	vAssert((rerr != nil) == wantErr, "elements sharing a backing array: error exactly when some element's Evaluate errors")
+	if rerr == nil && !wantErr {
+		got, ok := res.([][]eC17)
+		vAssert(ok && len(got) == len(want), "elements sharing a backing array: kept exactly where Evaluate is true")
+		if ok && len(got) == len(want) {
+			for i := range got {
+				vAssert(len(got[i]) == len(want[i]), "the kept elements are the matching ones, in order")
+			}
+		}
+	} else {
+		vAssert(rerr == nil || res == nil, "nil result with an error")
+	}
+	// the same pointer twice, and two pointers to equal content
+	p := &eC17{ID: 1, X: vInt8()}
+	q := &eC17{ID: 1, X: p.X}
+	f2, _ := CreateFilter("X == 1")
+	r2, e2 := f2.Execute([]*eC17{p, p, q})
+	vAssert(e2 == nil, "pointer elements: no error")
+	if e2 == nil {
+		ok1, _ := mustCreate("X == 1").Evaluate(p)
+		n := len(r2.([]*eC17))
+		vAssert(ok1 && n == 3 || !ok1 && n == 0, "repeated and equal pointers are all judged alike")
+	}
+	vCover("reached")
+}
